@@ -2,7 +2,7 @@ package rules
 
 func init() {
 	register(&Property{ID: "C14", Run: runC14,
-		Explanation: "Static decision of the determinism, boundary, alphabet and purity clauses of C14: no column statistic of package align traverses a Go map in an order-sensitive way (every range over a map is order-insensitive or collect-then-sort, so ties are broken the same way at every call); a site or row index outside the alignment reaches an error return and never an index expression (path conditions compared with the domain 0 <= site <= L-1 as linear inequalities, every row index proven in bounds); the wildcard excluded by the statistics is the one of the alignment's own alphabet; and every listed statistic leaves its receiver and arguments unmodified (write-effect analysis). Not decided: equality of each statistic with its naive definition."})
+		Explanation: "Static decision of the determinism, boundary, alphabet and purity clauses of C14: no column statistic of package align traverses a Go map in an order-sensitive way (every range over a map is order-insensitive or collect-then-sort, so ties are broken the same way at every call); a site or row index outside the alignment reaches an error return and never an index expression (path conditions compared with the domain 0 <= site <= L-1 as linear inequalities, every row index proven in bounds); the wildcard excluded by the statistics is the one of the alignment's own alphabet; every listed statistic leaves its receiver and arguments unmodified (write-effect analysis); and a loop that adds to result[k] for its own index k is never cut short on a path where that contribution is enabled (branch facts on loop-invariant conditions). Not decided: equality of each statistic with its naive definition."})
 }
 
 func runC14(c *Ctx) {
